@@ -235,8 +235,8 @@ EXTRA = {
     "C16": " Also: transparent wrappers (variable, conj, real, imag, neg, indexed, index sums) over sums of terms of different arity.",
     "C17": " Also: five mesh kinds (affine, P2, affine manifold, P2 manifold, broken coordinates): the two facet-normal values are opposite exactly on affine H1 meshes with gdim = tdim and independent elsewhere; cell normals and reference normals. Measures over several domains (ds/dx with intersecting dS of another mesh, dS with a second dS or ds): FormData's propagation guard and per-domain default restrictions as coded, one-sided domains where a restriction has no meaning.",
     "C18": " Also: symmetric elements with vector/tensor valued, Piola mapped or mixed sub-elements of different degrees, symmetric elements inside mixed elements and vice versa. Form operations as root terms: derivative with respect to a tuple of coefficients (the mixed element built by derivative()) and shape derivatives (coordinate_derivative with the direction's degree), estimated through compute_form_data.",
-    "C19": " Also: DAGTraverser rules with keyword context (different subsets of keywords on different paths, one traverser reused across roots, shared caches): the memo key must be (node, full ordered context); the same rule tables run through MultiFunction + map_expr_dag per context.",
-    "C22": " Also: mixed elements whose sub-elements have reference size != physical size (symmetric tensors, Piola vectors on an immersed mesh) in non-last position, with replace_argument True and False.",
+    "C19": " Also: DAGTraverser rules with keyword context (different subsets of keywords on different paths, one traverser reused across roots, shared caches): the memo key must be (node, full ordered context); the same rule tables run through MultiFunction + map_expr_dag per context. The handler NAME is part of the model (declarative CamelCase -> snake_case rule checked equal to the coded loop for all names over a small alphabet and every registered name); handler tables are sets of attribute names, types registered late (digits, runs of capitals) are observed in a child interpreter, and the 24 MultiFunction/Transformer tables defined in ufl are further cases.",
+    "C22": " Also: mixed elements whose sub-elements have reference size != physical size (symmetric tensors, Piola vectors on an immersed mesh) in non-last position, with replace_argument True and False. Restrictions and interior facets: value vectors of a facet macro element ('+' traces then '-' traces), x('+') / x('-') constructors, dS integrals, jumps and averages of sub-functions through extract_blocks.",
     "C28": " Also: weighted sums w1*x + w2*y + w3*z with pairwise different non-unit weights over components of different kinds (Form, Action, Cofunction, Matrix-Action, ...) in every order, followed by derivative / action / adjoint / replace, with histories in which components vanish under the operation (all eight vanishing patterns); TLC checks D(w1A+w2B+w3C) = w1DA+w2DB+w3DC on the model. The numbers 0, 0.0 and Zero() as operands of + and - (B+0, 0+B, B-0 denote B; 0-B denotes -B), in-place r -= B, A @ f / A * f / A(B) notations.",
     "C24": " Also: an index label re-used in nested scopes (a closed inner sum over i inside a summand summed over i).",
     "C08": " Symmetric elements are modelled as declared (ordered dictionaries from block components to sub-elements, any block shape); TLC proves that the declaration order is irrelevant.",
